@@ -21,15 +21,17 @@ RACEFLAG=""; grep -qi "\-race" "$M/README.md" 2>/dev/null && RACEFLAG="-race"
 cp $DEMOS . 
 go test $RACEFLAG -vet=off -count=1 -run 'Demo|demo|Seeded|Mutant|Test' . > /tmp/mut/$NAME.demo_clean.log 2>&1; CLEAN=$?
 rm -f $(for d in $DEMOS; do basename $d; done)
-git apply "$M/patch.diff" || { echo "RESULT $NAME: patch does not apply"; exit 2; }
+PATCH="$M/patch.diff"; [ -f "$M/patch.rebased.diff" ] && PATCH="$M/patch.rebased.diff"
+git apply "$PATCH" || { echo "RESULT $NAME: patch does not apply"; exit 2; }
 go build ./... > /tmp/mut/$NAME.build.log 2>&1 || { echo "RESULT $NAME: does not compile"; exit 2; }
 /verif/tools/baseline_check.sh "$WT" > /tmp/mut/$NAME.suite.log 2>&1; SUITE=$?
 cp $DEMOS .
 go test $RACEFLAG -vet=off -count=1 -run 'Demo|demo|Seeded|Mutant|Test' . > /tmp/mut/$NAME.demo_mut.log 2>&1; MUT=$?
 rm -f $(for d in $DEMOS; do basename $d; done)
 echo "confirm $NAME: suite_with_change=$SUITE(0=pass) demo_without_change=$CLEAN(0=pass) demo_with_change=$MUT(nonzero=fail)"
+MACH=${EVAL_MACHINERY:-/verif}   # a frozen copy of the machinery may be used so that edits in /verif do not disturb a running wave
 for P in $PROPS; do
-  VERIF_REPO="$WT" VERIF_DIR=/tmp/mut/verifout_$NAME /bin/bash -c "mkdir -p /tmp/mut/verifout_$NAME && cp /verif/known_findings.json /tmp/mut/verifout_$NAME/ && cd /verif && B=\$(VERIF_REPO=$WT ./build.sh 'plain race' | tail -1) && VERIF_DIR=/tmp/mut/verifout_$NAME \$B/bin/simcheck check $P quick" > /tmp/mut/$NAME.check_$P.log 2>&1
+  VERIF_REPO="$WT" VERIF_DIR=/tmp/mut/verifout_$NAME /bin/bash -c "mkdir -p /tmp/mut/verifout_$NAME && cp /verif/known_findings.json /tmp/mut/verifout_$NAME/ && cd $MACH && B=\$(VERIF_REPO=$WT ./build.sh 'plain race' | tail -1) && VERIF_DIR=/tmp/mut/verifout_$NAME \$B/bin/simcheck check $P quick" > /tmp/mut/$NAME.check_$P.log 2>&1
   RC=$?
   echo "RESULT $NAME check=$P exit=$RC $(grep -c '^VIOLATION' /tmp/mut/$NAME.check_$P.log) violation line(s); $(grep '^violation:' /tmp/mut/$NAME.check_$P.log | head -2 | cut -c1-220 | tr '\n' ' ')"
 done
